@@ -352,17 +352,17 @@ fn main() {
 
     let thorough = args.tier == "thorough";
     let mut rng = Rng::new(args.seed);
-    let (n_rand_nums, n_rand_seqs, n_sorts, n_ext) = if thorough { (230, 60, 200_000, 60_000) } else { (34, 12, 6_000, 3_000) };
+    let (n_rand_nums, n_rand_seqs, n_sorts, n_ext) = if thorough { (230, 60, 200_000, 60_000) } else { (24, 10, 4_500, 2_000) };
     rep.rule = format!(
         "pool = {} hand-picked values (ints around 2^53/2^63/2^64/2^1024 in both representations, floats incl. +-0, \
          +-inf, NaN, max, min subnormal, fractions equal to / one part in 10^6 ulp away from floats, integral fractions, \
          complex incl. NaN parts, strings incl. non-ASCII, bytes, lists, vectors, dicts, null, a function) + {} seeded random \
          boundary numbers (random floats with their integer neighbours, exact fractions and near fractions; 2^k+-1 and \
          2.0^k) + {} random lists/vectors/strings of them; ALL ordered pairs x (== != < <= > >= <=> >=< min max) + \
-         NNum::min/max/total_eq through the Rust API on all numeric pairs; {} sort cases (lists from one comparable \
+         NNum::min/max/total_eq through the Rust API on all numeric pairs; {} sort and {} sort_on / sort-with-comparator cases (key functions id, neg, abs, len, first, const, pair, raising; comparators <=>, reversed, >=<, halved, by len, const, non-number, raising; lists from one comparable \
          family, 15% with one incomparable intruder; strings, bytes, vectors, dict keys) and {} n-ary min/max cases; \
          non-trivial = operands of different numeric levels / nested / non-finite or an error outcome",
-        base_pool_srcs().len(), n_rand_nums, n_rand_seqs, n_sorts, n_ext
+        base_pool_srcs().len(), n_rand_nums, n_rand_seqs, n_sorts, n_sorts, n_ext
     );
 
     // ---- the pool
@@ -497,6 +497,76 @@ fn main() {
         }
     }
 
+    // ---- sort_on(xs, f) / sort(xs, f) with f from the finite tables the model knows
+    let key_fns: [(&str, &str); 8] = [
+        ("id", "\\x -> x"), ("neg", "\\x -> -x"), ("abs", "abs"), ("len", "len"), ("first", "first"),
+        ("const0", "\\x -> 0"), ("pair0", "\\x -> [x, 0]"), ("fail", "\\x -> throw \"no\""),
+    ];
+    let cmp_fns: [(&str, &str); 8] = [
+        ("cmp", "\\a, b -> a <=> b"), ("rcmp", "\\a, b -> b <=> a"), ("revop", "\\a, b -> a >=< b"),
+        ("half", "\\a, b -> (a <=> b) / 2"), ("bylen", "\\a, b -> len(a) <=> len(b)"), ("const0", "\\a, b -> 0"),
+        ("str", "\\a, b -> \"x\""), ("fail", "\\a, b -> throw \"no\""),
+    ];
+    let real_members: Vec<usize> = by_fam[0].iter().cloned().filter(|&i| pool[i].class != "complex").collect();
+    for _ in 0..n_sorts {
+        let on = rng.chance(3, 5);
+        let (fname, fsrc) = if on { *rng.pick(&key_fns) } else { *rng.pick(&cmp_fns) };
+        // a family the function is meaningful on
+        let fi = match fname {
+            "abs" | "neg" | "half" => if rng.chance(4, 5) { 0 } else { 3 },
+            "len" | "bylen" => *rng.pick(&[1usize, 2, 3, 4]),
+            "first" => *rng.pick(&[3usize, 4]),
+            _ => if rng.chance(1, 2) { 0 } else { rng.below(fams.len() as u64) as usize },
+        };
+        let members: &Vec<usize> = if fname == "abs" && fi == 0 { &real_members } else { &by_fam[fi] };
+        if members.is_empty() {
+            continue;
+        }
+        let len = match rng.below(8) {
+            0 => rng.below(2),
+            1..=5 => 2 + rng.below(5),
+            _ => 6 + rng.below(if thorough { 24 } else { 10 }),
+        } as usize;
+        let mut idx: Vec<usize> = (0..len).map(|_| *rng.pick(members)).collect();
+        // vectors holding complex numbers are outside the modelled fragment of abs
+        if fname == "abs" && idx.iter().any(|&i| pool[i].canon.contains("c:")) {
+            continue;
+        }
+        let mut intruder = false;
+        if len >= 2 && rng.chance(12, 100) {
+            let cands: Vec<usize> = (0..pool.len())
+                .filter(|&i| pool[i].kind != pool[members[0]].kind && pool[i].kind != "func" && !(fname == "abs" && pool[i].canon.contains("c:")))
+                .collect();
+            let pos = rng.below(len as u64) as usize;
+            idx[pos] = *rng.pick(&cands);
+            intruder = true;
+        }
+        // sort_on / sort also on a vector / bytes / string as a whole
+        let whole = len >= 1 && rng.chance(1, 6) && !intruder && (fi == 1 || fi == 2 || fi == 3);
+        let (expr_vars, expr_src, req_seq) = if whole {
+            let i = idx[0];
+            (format!("p{}", i), pool[i].src.clone(), pool[i].canon.clone())
+        } else {
+            (
+                format!("[{}]", idx.iter().map(|i| format!("p{}", i)).collect::<Vec<_>>().join(", ")),
+                format!("[{}]", idx.iter().map(|&i| pool[i].src.clone()).collect::<Vec<_>>().join(", ")),
+                format!("[{}]", idx.iter().map(|&i| pool[i].canon.clone()).collect::<Vec<_>>().join(",")),
+            )
+        };
+        if whole && (fname == "first" || fname == "len" || fname == "bylen" || ((fname == "abs" || fname == "neg") && fi != 3)) {
+            continue; // elements of a string / bytes / vector are not sequences (and abs of a char raises trivially)
+        }
+        let builtin = if on { "sort_on" } else { "sort" };
+        let out = interp.eval(&format!("{}({}, {})", builtin, expr_vars, fsrc));
+        cases.push(Case {
+            key: format!("{}-{}({}{}{})", builtin, fname, fams[fi], if intruder { "+intruder" } else { "" }, if whole { ",whole" } else { "" }),
+            input: format!("{}({}, {})", builtin, expr_src, fsrc),
+            request: format!("{} {} {}", if on { "sorton" } else { "sortby" }, fname, req_seq),
+            rust: out.class(),
+            nontrivial: true,
+        });
+    }
+
     // ---- n-ary min / max
     let non_func: Vec<usize> = (0..pool.len()).filter(|&i| pool[i].kind != "func").collect();
     for _ in 0..n_ext {
@@ -551,6 +621,24 @@ fn main() {
         rep.judge(&c.key, &full_input, &c.rust, parts[0], parts[1]);
     }
     let _ = out_class;
+    {
+        let mut ok = 0u64;
+        let mut thr = 0u64;
+        let mut moved = 0u64;
+        for c in cases.iter().filter(|c| c.key.starts_with("sort_on-") || c.key.starts_with("sort-")) {
+            if c.rust.starts_with("ok") {
+                ok += 1;
+                // did sorting change the order at all?
+                let inp = c.request.splitn(3, ' ').nth(2).unwrap_or("");
+                if c.rust[3..] != *inp {
+                    moved += 1;
+                }
+            } else {
+                thr += 1;
+            }
+        }
+        rep.notes.push(format!("sort_on / sort-with-comparator cases: {} returned ({} of them reordered the input), {} raised", ok, moved, thr));
+    }
     let _ = (BigInt::zero(), BigInt::one());
     rep.write(&args.out);
 }
